@@ -88,6 +88,7 @@ TraceNext ==
   /\ LET ev == T[ti] IN
      CASE ev.e = "Reset" -> ResetA(ev)
        [] ev.e = "Step" -> (IF mode = "free" THEN FreeStep(ev) ELSE IterStep(ev)) /\ UNCHANGED <<n, oL, oR, isl, mode>>
+       [] ev.e = "Complete" -> ~done /\ mode # "free" /\ Restored(ev) /\ out' = Expected /\ done' = TRUE /\ UNCHANGED <<n, oL, oR, isl, mode, gone>>
        [] ev.e = "FreeSub" -> FreeSubOK(ev) /\ UNCHANGED <<n, oL, oR, isl, mode, out, gone, done>>
        [] ev.e = "Deep" -> ev.iter = ev.n /\ ev.freed = ev.n /\ ev.ok = 1 /\ UNCHANGED <<n, oL, oR, isl, mode, out, gone, done>>
        [] OTHER -> FALSE
